@@ -43,27 +43,27 @@ CLAIMS = {
         "translator": True,
     },
     "C01": {
-        "text": "Lean model of the generator (collect_moves for all piece types, pins/check masks, castling, the repaired e.p. test, the MoveGen iterator) and a mailbox specification of the rules of chess. Kernel-checked so far: is_legal = membership in the generated list; the iterator yields exactly what its entry list denotes (each move once, promotion entries times four), via the C10 refinement. The full equivalence generator = Spec.legal for all well-formed boards (LegalsSpec) is stated and not yet proved; it is decided on every run by the oracle: the real generator's move set (also masked, and is_legal on all 20480 triples on a subsample) against Spec.legalMoves on corpus, play and motif positions. Four genuine e.p. defects were found this way and fixed.",
-        "note": "Trusted: Lean kernel (axioms propext, Classical.choice, Quot.sound); the hand-written model and the ~300-line rules specification; translator for all tables; the proof is partial (see DESIGN.md §6 C01): where no theorem covers a case the assurance is the differential oracle on generated positions.",
-        "technique": "Lean 4 model + rules specification, kernel-checked structural theorems, differential oracle implementation vs specification (partial proof)",
+        "text": 'Kernel-checked theorem for every well-formed board, and hence (well-formedness is proved invariant under legal moves and established by the parser and the standard constructor) for every position reachable by legal play from the standard start or from any parsed position: the list the generator yields contains exactly the moves the mailbox specification of the rules calls legal (legals_iff: castling, en passant, all four promotion choices, every check evasion; no move leaving the king attacked), each exactly once (legals_nodup), and is_legal answers the same question (isLegal_iff_spec). About 8700 lines of Lean (Proofs/Legal): ray/segment geometry, attacks on the mailbox, meaning of pinned/checkers, the three check regimes, the line test for pinned pieces, king steps and castling, en passant, per-piece assembly. Four genuine en-passant defects were found by the differential oracle while building this and fixed.',
+        "note": 'Trusted: Lean kernel (axioms propext, Classical.choice, Quot.sound; no native_decide in this property); the ~300-line rules specification Spec/Rules.lean and the abstraction Spec/Abs.lean; the hand-written model of the generator tied to the code by exact comparison of move sets, yield order, masked sets and is_legal (all 20480 triples on a subsample) on corpus, play and motif positions; tools/translate.py for the tables (C08, C09 prove them equal to their definitions).',
+        "technique": 'Lean 4 proof of generator = rules for all well-formed / reachable boards (invariant + case analysis over check regimes) + differential oracle implementation vs specification',
         "translator": True,
     },
     "C02": {
-        "text": "Kernel-checked for every board and move (no hypothesis): side to move flips; full-move +1 after Black; half-move reset by pawn moves and captures else +1 (saturating at the 16-bit limit); castling rights = the per-square masks of destination and source (translated grid proved equal to the a1/e1/h1/a8/e8/h8 rule); e.p. marker set on and only on a double pawn step; checked operations accept exactly is_legal and refuse otherwise. For quiet moves and plain captures by non-pawns on a partitioned board: the successor's mailbox is exactly 'source emptied, destination holds the mover' and the partition is preserved. Pawn specials and castling placement are covered by the oracle (successor vs Spec.apply for every legal move of every generated position).",
-        "note": "Trusted: Lean kernel (axioms propext, Classical.choice, Quot.sound); hand-written model of move_unchecked_into tied to the code by exact successor comparison on every legal move of the generated positions; placement theorem not yet extended to pawn moves/castling.",
-        "technique": "Lean 4 theorems about the line-by-line model of make-move (projection lemmas, per-square partition reasoning) + differential oracle vs Spec.apply",
+        "text": 'Kernel-checked: on every well-formed board (hence every reachable position) the checked move returns a successor exactly for the legal moves (moveNew_none_iff) and then abs(successor) = Spec.apply(abs board, move) as a whole position — placement including rook hop, en-passant victim and promoted piece, side to move, castling rights, marker, clocks below the 16-bit limit (moveNew_abs, move_abs, move_placement for every kind of move) — and the successor is again well-formed (move_WF). Field-level theorems (turn, clocks, rights masks = the a1/e1/h1/a8/e8/h8 rule, marker iff double step) hold for every board and move without hypothesis.',
+        "note": 'Trusted: Lean kernel (axioms propext, Classical.choice, Quot.sound); hand-written line-by-line model of move_unchecked_into tied to the code by exact successor comparison (square by square, rights, marker, clocks, derived state) on every legal move of the generated positions and by refusal/untouched-board checks on illegal triples; clocks at the 16-bit limit saturate (fix: commit) and are outside the property.',
+        "technique": 'Lean 4 refinement proof (abs commutes with make-move, all move kinds; WF invariant) + differential oracle vs Spec.apply',
         "translator": True,
     },
     "C03": {
-        "text": "Kernel-checked: the four-way game state is the specification's classification given correct 'no legal move', 'in check' and clock; every parsed board carries from-scratch pin/check state; from-scratch state is determined by placement and side to move (so a moved and a rebuilt board agree as soon as pinInfoOk is preserved). Preservation of pinInfoOk by make-move (incr_eq) is not yet proved; it is decided per run: incrementally kept pinned/checkers/hash of every position reached by moves vs the model's from-scratch values, and the moved board vs the board rebuilt from text (legal moves, check, hash, Display, Debug, ==).",
-        "note": "Trusted: Lean kernel; hand-written model; partial proof (incr_eq open) backed by the moved-vs-rebuilt differential on playouts that force discovered, castling-rook, promotion and e.p.-discovered checks.",
-        "technique": "Lean 4 theorems (classification, parser establishes derived state) + differential moved-vs-rebuilt oracle (partial proof)",
+        "text": "Kernel-checked for every well-formed / reachable board: in_check iff the side to move's king is attacked (inCheck_iff); the four-way state() is the specification's classification (state_eq, using C01 for 'no legal move'); the pin/check state maintained incrementally by make-move is the from-scratch state (move_pinInfo: direct, discovered, castling-rook, promotion and en-passant-discovered checks), so well-formedness is invariant; and writing any reachable board as text and parsing it back returns the identical board in all fields including hash, pinned and checkers (rebuilt_eq_reachable) — a played position is indistinguishable from the rebuilt one.",
+        "note": "Trusted: Lean kernel (axioms propext, Classical.choice, Quot.sound); models of update_pin_info / make-move / Display / parse_fen tied to the code by the moved-vs-rebuilt differential (legal moves, check, hash, Display, Debug, ==) and by comparing the incrementally kept state with the model's from-scratch values on playouts.",
+        "technique": 'Lean 4 invariant proof (incremental = from scratch) + classification theorem + moved-vs-rebuilt differential',
         "translator": True,
     },
     "C04": {
-        "text": "Kernel-checked on the translated key tables: all 794 keys pairwise distinct, non-zero, 64-bit; table shapes. Kernel-checked for all boards: boards that compare equal and carry the from-scratch piece hash have equal hashes (eq_hash), the hash ignores clocks and pin state; the standard-position literal and every parsed board carry the from-scratch hash. Preservation of 'stored hash = from-scratch hash' by make-move is not yet proved; it is decided per run on every position reached by moves and on transposing move-order pairs.",
-        "note": "Trusted: Lean kernel (axioms propext, Classical.choice, Quot.sound); translator for the keys and the standard literal; partial proof (incremental maintenance open).",
-        "technique": "Lean 4: decide +kernel over the translated key table, algebraic theorems on the hash, differential oracle for incremental maintenance (partial proof)",
+        "text": 'Kernel-checked: all 794 translated keys pairwise distinct, non-zero, 64-bit; boards that compare equal and carry the from-scratch piece hash hash equal, the hash ignores clocks and pin state; the standard literal and every parsed board carry the from-scratch hash; make-move maintains it for every move kind (move_hash), so for every reachable position the stored hash is the from-scratch hash and equal reachable boards hash equal whatever move orders produced them (reachable_hash, eq_hash_reachable).',
+        "note": 'Trusted: Lean kernel (axioms propext, Classical.choice, Quot.sound); translator for the keys and the standard literal; model of the xor helper tied to the code by comparing zobrist() and the stored piece hash on every generated position and on transposing move-order pairs; HashMap/Hasher glue of ThreeFold is modelled (IntHasher passes zobrist() through).',
+        "technique": 'Lean 4: decide +kernel over the translated key table, invariant proof for incremental maintenance, algebraic theorems + differential',
         "translator": True,
     },
     "C05": {
@@ -79,9 +79,9 @@ CLAIMS = {
         "translator": True,
     },
     "C07": {
-        "text": "Kernel-checked preconditions of the unchecked operations: slider-table indices in range for all squares and occupancies (C08), book reads in range and walk terminating (C17, native_decide), parser never panics (C06), castle index < 16 and both kings present on every parsed/validated board (king_sq's pop_unchecked), saturating clocks stay in u16. Not yet proved: move-list capacity (<= 18 entries) and check_mask's assertion; those and machine-level UB are exercised by running every stream of every property under the checked build, plus an extremal generator (16 mobile men + two e.p. capturers). Partial by nature.",
-        "note": "Trusted: Lean kernel; C17's native_decide (Lean.ofReduceBool) for the book bound; the checked build (debug assertions + overflow checks) as the observer of violated preconditions; compiled-artefact UB is outside any model.",
-        "technique": "Lean 4 precondition theorems reused from C06/C08/C17 + checked-build execution of all streams (partial)",
+        "text": "Kernel-checked preconditions of the unchecked operations on every well-formed / reachable board: move list never exceeds its translated capacity 18 for any mask (moveList_capacity: <=16 men, one entry each, plus <=2 e.p. entries), check_mask's assertion holds at every call site, both kings exist for king_sq's pop_unchecked, castle index < 16, slider-table indices in range for all squares and occupancies (C08), book reads in range and walk terminating (C17, native_decide), parser never panics on any byte string (C06), saturating clocks stay in u16. Partial by nature: machine-level UB is a property of the compiled artefact; every stream of every property runs under the checked build (debug assertions + overflow checks) and any panic/abort/hang is a failing input for this property.",
+        "note": "Trusted: Lean kernel; C17's native_decide (Lean.ofReduceBool) for the book bound only; the checked build as the observer of violated preconditions at run time.",
+        "technique": 'Lean 4 precondition theorems over the WF invariant + checked-build execution of all streams (partial)',
         "translator": True,
     },
     "C10": {
